@@ -5,6 +5,8 @@
 package api
 
 import (
+	"math/big"
+
 	"github.com/consensys/gnark-crypto/ecc"
 	"github.com/consensys/gnark/backend/groth16"
 	"github.com/consensys/gnark/constraint"
@@ -52,7 +54,7 @@ type Ops struct {
 	P2Layout     func(b []byte) (*Layout, error)
 
 	Generator  func(group int) []byte
-	Scale      func(group int, p []byte, k int64) ([]byte, error)
+	Scale      func(group int, p []byte, k *big.Int) ([]byte, error) // k·P, k may be negative or zero
 	IsInfinity func(group int, p []byte) bool
 }
 
